@@ -7,7 +7,7 @@ import vlib
 META = {
     "property_id": "C12",
     "level": "proof",
-    "technique": "Coq theorems over the trait layer of the executable genum model (extractTraitDescs, per-line instances, processDuplicates, validateParsableTraits, family classification, accessor and Parse switch rows) + generator farm: enum definitions with 1-5 trait columns of every kind of the quantifier, duplicate / cell-less lines, random parsable subsets, run through the real CLI, compiled, accessors / Parse<T>(trait value) / decoding of library-rendered trait values observed and judged inside Coq against specification and model",
+    "technique": "Coq theorems over the trait layer of the executable genum model (extractTraitDescs, per-line instances, processDuplicates, validateParsableTraits, family classification, accessor and Parse switch rows) + generator farm: enum definitions with 1-5 trait columns of every kind of the quantifier, duplicate / cell-less lines, random parsable subsets, run through the real CLI, compiled, accessors / Parse<T>(trait value) / decoding of library-rendered trait values observed and judged inside Coq against specification and model + translator ties: the control skeletons of every function the template emits are regenerated from enumTemplate.gotmpl on each run, shown well-formed by computation (coq/ties/Tie_GEnumSkel.v) and evaluated by the judge ; traits.go kind table and family filters tied semantically (Tie_GEnumTraits.v)",
     "design_ref": "DESIGN.md §4 C12",
     "level_text": "Proof: GEnumProofs.v shows for every generated enum with traits that each accessor returns the cell written on the primary definition line of a defined value and the zero value otherwise, that Parse<T> of a parsable trait constant returns the owning value, and that the JSON/YAML/text decoders do so for every document whose faithful reading is that constant (Props/C12.v, closed under the global context). The model is tied to the current source by the farm (untyped and typed string/integer/bool/rune, time.Duration through a renamed import, locally named string/int types, other generated enums; `_`-prefixed and exported trait names; duplicates with and without trait cells; lines without cells; every kind of parsable subset).",
     "level_note": "Trusted: Coq kernel + vm_compute; go/types (trait types, ExprString), constant evaluation; codec libraries as recorded views; model fidelity checked by correspondence; Go harness. No axioms. Open findings: parsable bool traits have no codec fallback family; two parsable traits with equal cells on one line yield a duplicate case.",
@@ -45,6 +45,8 @@ def denotes(d, cl):
     if cl["kind"] == "str" and d.get("str") is not None and d["str"] == cl.get("str", ""):
         return True
     if cl["kind"] == "int" and cl.get("int") in (d.get("u64"), d.get("i64")):
+        return True
+    if cl["kind"] == "bool" and d.get("bool") is not None and bool(d["bool"]) == bool(cl.get("bool")):
         return True
     for n in d.get("native") or []:
         if n.get("ok") and n["ty"] == cl["ty"] and n.get("p"):
@@ -145,23 +147,26 @@ def run(ctx):
     ctx.assumptions = [
         "trait names are given on the line of the lowest value; every trait cell is a constant of the column's type (untyped columns: untyped cells)",
         "parsable trait values are pairwise distinct per column; definitions the generator rejects with a diagnostic (value shared by two parsable traits of different values, inconsistent cell counts) generate nothing and satisfy the property vacuously",
-        "trait strings are not spelled like constant names; documents whose readings match parsable traits of two different values (YAML 12 vs \"12\") carry no obligation",
+        "trait strings are not spelled like constant names; documents whose readings match parsable traits of two different values (YAML 12 vs \"12\") carry no obligation (C12_unambiguous_def gives the definition-level criterion)",
+        "trait types that are enums generated by the same invocation are generated in a separate file first (the farm's AuxA/AuxB); YAML null never reaches the decoder (see C05); floating-point trait types are outside the modelled space; int/uint are 64 bits",
     ]
     ctx.obligations_or_violation()
     if not gl.build_judge(ctx):
         return
+    gl.use_skeletons(ctx)
     quick = ctx.tier == "quick"
     terms, jsons, err = gl.run_batches(ctx, "c12", 20, 8, 75)
     if err:
         ctx.report({"unchecked": "generator farm run against the current tree", "detail": err},
                    {"kind": "harness"}, failing_input=False)
         return
-    bad, nt, err = ctx.judge_cases(gl.HEADER, CASE_TYPE, JUDGE, terms, shard=6 if quick else 20,
+    bad, nt, err = ctx.judge_cases(gl.header_of(ctx), CASE_TYPE, gl.judge_of(ctx, JUDGE), terms, shard=6 if quick else 20,
                                    nontrivial="c12_nontrivial")
     if err:
         ctx.report({"unchecked": "in-kernel evaluation of the correspondence", "detail": err},
                    {"kind": "coq_eval"}, failing_input=False)
         return
+    bad = gl.split_codes(ctx, jsons, bad)
     gl.report_all(ctx, "c12", CASE_TYPE, JUDGE, jsons, bad, features, explain, widen_n=30, shard=6, maxlist=12)
     docs = [d for j in jsons for d in (j["obs"].get("docs") or [])]
     skipped = [j for j in jsons if j["outcome"] == "compile_error" and not j["file"]["opts"]["yaml"]]
